@@ -289,8 +289,17 @@ def base_terms_rule(ctx):
         else:
             from ..symexp import inline_expr
 
-            alts = inline_expr(ai.value, ai.func.node if ai.func is not None else None)
-            value = alts[0][1] if len(alts) == 1 else ai.value
+            value0 = ai.value
+            if ai.func is not None:
+                # a local of the constructor that holds the value (log_z = torch.tensor(..); self._log_z = nn.Buffer(log_z))
+                from ..symexp import expand
+
+                envs = [q.env for q in paths_of(ai.func.node) if q.kind in ("fallthrough", "return")]
+                cands = {norm_text(expand(value0, {k: v for k, v in env.items() if isinstance(k, str) and k != "shape"})) for env in envs}
+                if len(cands) == 1 and envs:
+                    value0 = expand(value0, {k: v for k, v in envs[0].items() if isinstance(k, str) and k != "shape"})
+            alts = inline_expr(value0, ai.func.node if ai.func is not None else None)
+            value = alts[0][1] if len(alts) == 1 else value0
             names = {n.id for n in ast.walk(value) if isinstance(n, ast.Name)} - {"torch", "np", "math"}
             if names <= {"shape"} and "shape" in names:
                 res.ok("%s._log_z depends on the event shape only" % cname)
